@@ -232,6 +232,7 @@ func packDomainName(s string, msg []byte, off int, compression compressionMap, c
 		compOff   int
 		bs        []byte
 		wasDot    bool
+		nameLen   int // wire octets of the name emitted so far
 	)
 loop:
 	for i := 0; i < ls; i++ {
@@ -300,6 +301,11 @@ loop:
 
 					// If compress is true, we're allowed to compress this dname
 					if compress {
+						// The labels emitted so far plus the suffix pointed to
+						// must still fit in a domain name.
+						if nameLen+escapedNameLen(s[compBegin:])+1 > maxDomainNameWireOctets {
+							return len(msg), ErrLongDomain
+						}
 						pointer = p // Where to point to
 						break loop
 					}
@@ -307,6 +313,13 @@ loop:
 					// Only offsets smaller than maxCompressionOffset can be used.
 					compression.insert(s[compBegin:], off)
 				}
+			}
+
+			// The whole name, including the root label, is limited to
+			// maxDomainNameWireOctets, just as UnpackDomainName enforces.
+			nameLen += 1 + labelLen
+			if nameLen+1 > maxDomainNameWireOctets {
+				return len(msg), ErrLongDomain
 			}
 
 			// The following is covered by the length check above.
